@@ -74,6 +74,14 @@ Proof.
   rewrite equiv_amount_impl_eq. destruct (equiv_amount ce q (q_unit p)) as [[a|]|e]; reflexivity.
 Qed.
 
+Theorem unit_cmp_impl_eq u v op : unit_cmp_impl u v op = unit_cmp op u v.
+Proof.
+  unfold unit_cmp_impl, unit_cmp. rewrite get_factor_impl_eq. unfold get_factor.
+  destruct (same_cls u v); [|reflexivity].
+  destruct (u_has_ref u); [|reflexivity].
+  destruct (u_scale u), (u_scale v); reflexivity.
+Qed.
+
 Theorem qty_add_impl_eq ce dm p q : qty_add_impl ce dm p q = qty_add ce dm p q.
 Proof.
   unfold qty_add_impl, qty_add, qty_addsub. destruct (same_cls (q_unit p) (q_unit q)); [|reflexivity].
